@@ -1,1 +1,1 @@
-// no concrete playback test could be generated for c17_lfn_push_full_capacity
+// replay skipped (VERIF_NO_REPLAY): solver verdict only
